@@ -1039,9 +1039,11 @@ func c18WgCase(r *Run, cus []int, grid [3]uint32, wgs [3]uint16) {
 	q := drv.CreateCommandQueue(ctx)
 	var dist []int
 	var reqs []*c18Launch
+	left := 0
 	f := catch(func() {
-		d, rs := drv.VerifC18ProcessUnified(q, grid, wgs)
+		d, rs, l := drv.VerifC18ProcessUnifiedQ(q, grid, wgs)
 		dist = d
+		left = l
 		for _, x := range rs {
 			reqs = append(reqs, &c18Launch{dst: c18PortNum(x.Dst), filter: x.WGFilter, pkt: x.Packet})
 		}
@@ -1052,11 +1054,13 @@ func c18WgCase(r *Run, cus []int, grid [3]uint32, wgs [3]uint16) {
 		r.Count("wg.fault." + c18Fault(f))
 		return
 	}
-	nx := (grid[0]-1)/uint32(wgs[0]) + 1
-	ny := (grid[1]-1)/uint32(wgs[1]) + 1
-	nz := (grid[2]-1)/uint32(wgs[2]) + 1
-	total := int(nx * ny * nz)
+	// work-groups per dimension: ceil(grid / wg), 0 for an empty dimension; no 32-bit wrap-around
+	nx := (int(grid[0]) + int(wgs[0]) - 1) / int(wgs[0])
+	ny := (int(grid[1]) + int(wgs[1]) - 1) / int(wgs[1])
+	nz := (int(grid[2]) + int(wgs[2]) - 1) / int(wgs[2])
+	total := nx * ny * nz
 	cnt := make([]int, len(cus))
+	c18WgExtra(r, line, total, nx, ny, nz, dist, reqs, left)
 	// ---- oracle: the real filters partition the work-groups of the grid
 	if total <= 20000 {
 		for z := 0; z < int(nz); z++ {
